@@ -147,6 +147,7 @@ package httpcache
 //@   let served = result0 == old(stored.Data) && result1 == nil && upstreamCalls == old(upstreamCalls)
 //@   use wrap-window(freshness.Age.Value, age - freshness.Age.Value, freshness.UsefulLife, swr)
 //@   use satsub-mono(A0, Lresp, freshness.Age.Value, freshness.UsefulLife)
+//@   callsite finishValidation :: !fresh(req)                                              # name: the-clients-request-not-the-conditional-copy-selects-what-is-stored   props: C19 C04 C09
 //@   assigns *
 //@   ensures served ==> A0 < Lreq || maxStaleOK(A0, Lreq, hq, vq) || hq["only-if-cached"] || inSWR(A0, Lresp, hs, vs)   # name: stale-only-with-permission  props: C01
 //@   ensures served ==> !unqualNoCacheA(hs, vs)                                          # name: response-no-cache-validated   props: C02
